@@ -156,30 +156,25 @@ def run(ctx):
                 ctx.check(idx in ([0, 1], None) or idx == [0, 1], "K3.binding-order", "%s passes (operand 0, operand 1) (%s)" % (op, cfg), "%s passes operands %s" % (op, idx), where=b.where(), fn=b.key)
             # fold identities
             if op in ("+", "*", "min", "max"):
-                folds = [s for s in u.calls_path(r"Iterator(>)?::fold$")]
-                ctx.check(len(folds) == 1, "K3.fold", "%s folds over all operands once (%s)" % (op, cfg), "%d folds" % len(folds), where=b.where(), fn=b.key)
+                from . import accum
+                accs = accum.find(u)
+                if not accs:
+                    ctx.unread("K3.fold", "%s (%s)" % (op, cfg), "no accumulation over the operands was recognised in %s (neither a fold/try_fold nor a loop with a carried float)" % op, where=b.where(), fn=b.key)
+                else:
+                    ctx.check(len(accs) == 1, "K3.fold", "%s folds over all operands once (%s)" % (op, cfg), "%d accumulations: %s" % (len(accs), [a_.where() for a_ in accs]), where=b.where(), fn=b.key)
                 from .c13 import REORDER
                 bad_ad = [callee_path(x.term) for x in u.calls_path(REORDER.pattern)]
                 ctx.check(not bad_ad, "K3.fold-in-order", "%s folds its operands left to right, all of them (float arithmetic is not associative, -0 < +0 is not strict) (%s)" % (op, cfg),
                           "%s applies %s to its operands before folding: the double result is that of another order or of fewer operands" % (op, bad_ad), where=b.where(), fn=b.key, nontrivial=True)
-                for s in folds:
-                    seed = strip_refs(s.body.trace(s.term["args"][1]))
-                    sv = None
-                    if seed[0] == "agg" and seed[1].get("variant") == "Ok":
-                        x = strip_refs(seed[2][0])
-                        if x[0] == "const":
-                            sv = const_value(x[1])
-                        elif x[0] == "const" or (x[0] == "const" and "item" in x[1]):
-                            sv = x[1].get("item_path")
-                    elif seed[0] == "const":
-                        sv = const_value(seed[1])
-                    if sv is None:
-                        names = []
-                        expr_mentions(seed, lambda y: names.append(y[1].get("item_path")) if (y[0] == "const" and "item_path" in y[1]) else False)
-                        sv = names[0] if names else None
+                for s in accs:
+                    if s.form == "loop":
+                        early = accum.loop_exits_early(s.body, s.bi)
+                        ctx.check(not early, "K3.fold-in-order", "%s: the accumulation loop visits every operand (leaves only at the end or with an error) (%s)" % (op, cfg),
+                                  "%s leaves its accumulation loop early on a path that still returns a number (%s): the remaining operands are neither converted nor combined — a non-numeric operand after that point is no error" % (op, [s.body.where(u_) for u_, _ in early]), where=s.body.where(early[0][0]) if early else s.where(), fn=s.body.key, nontrivial=True)
+                    sv = accum.seed_value(s.seed)
                     want_seed = {"+": 0.0, "*": 1.0, "min": ("std::f64::INFINITY", "std::f64::<impl f64>::INFINITY", float("inf")), "max": ("std::f64::NEG_INFINITY", "std::f64::<impl f64>::NEG_INFINITY", float("-inf"))}[op]
                     good = sv == want_seed if not isinstance(want_seed, tuple) else sv in want_seed
-                    ctx.check(good, "K3.identity", "%s starts from its identity (%s)" % (op, cfg), "%s's fold starts from %s" % (op, sv), where=s.where(), fn=s.body.key, nontrivial=True, sample={"operator": op, "seed": str(sv)})
+                    ctx.check(good, "K3.identity", "%s starts from its identity (%s)" % (op, cfg), "%s's accumulation starts from %s" % (op, sv), where=s.where(), fn=s.body.key, nontrivial=True, sample={"operator": op, "seed": str(sv), "form": s.form})
             # ---- K4 routing
             reach = facts.reach([b.key])
             uses_pf = pf.key in reach
@@ -247,6 +242,12 @@ def error_on_none(s):
         with b.restricted(region | {t_none}):
             res = strip_refs(b.trace(0))
         if res[0] == "agg" and res[1].get("variant") == "Err":
+            return True
+        # the same inside a loop (the two edges reach each other through the back edge): every path from the None
+        # edge ends the function with an Err before the loop comes round again
+        from . import pathsum
+        w = pathsum.Walker(b, start=t_none, max_paths=400)
+        if w.paths and not w.overflow and all((not p.truncated) and p.result is not None and strip_refs(p.result)[0] == "agg" and strip_refs(p.result)[1].get("variant") == "Err" for p in w.paths):
             return True
     # (c) map(...) then ok_or_else on the mapped value
     for bi, t in b.calls():
